@@ -59,3 +59,36 @@ func sortKeys[K comparable](keys []K) {
 		})
 	}
 }
+
+// MapIter drives a rewritten `for k, v := range m`.
+type MapIter[K comparable, V any] struct {
+	m    map[K]V
+	keys []K
+	i    int
+	k    K
+	v    V
+}
+
+// NewMapIter snapshots and orders the keys of m.
+func NewMapIter[M ~map[K]V, K comparable, V any](m M) *MapIter[K, V] {
+	return &MapIter[K, V]{m: m, keys: MapKeys(m)}
+}
+
+// Next advances to the next key that is still present.
+func (it *MapIter[K, V]) Next() bool {
+	for it.i < len(it.keys) {
+		k := it.keys[it.i]
+		it.i++
+		if v, ok := it.m[k]; ok {
+			it.k, it.v = k, v
+			return true
+		}
+	}
+	return false
+}
+
+// Key returns the current key.
+func (it *MapIter[K, V]) Key() K { return it.k }
+
+// Val returns the current value.
+func (it *MapIter[K, V]) Val() V { return it.v }
